@@ -28,6 +28,19 @@ let dom_ x = match lst x with
   | [A "cont"; lo; hi] -> Cont (bigq_ lo, bigq_ hi)
   | _ -> failwith "dom"
 
+let nkind_ x = match atom x with
+  | "generic" -> Generic | "sel" -> SelChoice | "connchoice" -> ConnChoice | "connector" -> Connector
+  | "grouping" -> Grouping | "dv" -> DesVarK | "metric" -> MetricK | s -> failwith ("nkind " ^ s)
+let ekind_ x = match atom x with
+  | "d" -> Derives | "c" -> Connects | "x" -> Excludes | "i" -> Incompat | s -> failwith ("ekind " ^ s)
+let edge_ x = match lst x with [s; t; k] -> ((n_ s, n_ t), ekind_ k) | _ -> failwith "edge"
+let ccon_ x = match lst x with [t; cn] -> (ctype_ t, list_ (pair_ n_ (list_ n_)) cn) | _ -> failwith "ccon"
+let dsg_ x = match lst x with
+  | [ns; es; st; cs] -> { nodes = list_ (pair_ n_ nkind_) ns; edges = list_ edge_ es; start = list_ n_ st; cons = list_ ccon_ cs }
+  | _ -> failwith "dsg"
+let assign_ x = list_ (pair_ n_ n_) x
+let w_assign s = w_list (w_pair w_n w_n) s
+
 let dispatch (cmd : string) (args : sx list) : sx =
   match cmd, args with
   | "valid_idx_rows", [t; p; rows] ->
@@ -42,6 +55,13 @@ let dispatch (cmd : string) (args : sx list) : sx =
   | "in_dom", [d; v] -> w_bool (in_dom (dom_ d) (bigq_ v))
   | "canon", [d] -> w_bigq (canon (dom_ d))
   | "set_value", [g; i; v] -> w_opt (w_list (w_pair w_nat w_bigq)) (set_value (list_ dom_ g) (nat_ i) (bigq_ v))
+  | "closure", [g; s] -> w_opt (w_list w_n) (closure (dsg_ g) (assign_ s))
+  | "inst_nodes", [g; s] -> w_opt (w_list w_n) (inst_nodes (dsg_ g) (assign_ s))
+  | "permanent", [g] -> w_opt (w_list w_n) (permanent (dsg_ g))
+  | "admb", [g; s] -> w_opt w_bool (admb (dsg_ g) (assign_ s))
+  | "enum_adm", [g] ->
+      let g = dsg_ g in
+      w_opt (w_list (fun s -> L [w_assign s; w_opt (w_list w_n) (inst_nodes g s)])) (enum_adm g)
   | _ -> Dispatch2.dispatch cmd args
 
 let () =
